@@ -7,6 +7,7 @@ package storage
 // ---- C12: reservoir trap-all ----
 
 //@ func storageTrapAll(inflowMass, storageInflow, storageOutflow, storageVolume, initialStoredMass, trappedMass, outflowMass) returns (rStored)
+//@   locals idx
 //@   kernel causal-by-ensures
 //@   states initialStoredMass
 //@   noalias
@@ -21,6 +22,7 @@ package storage
 // ---- C12: reservoir dissolved constituent, decay disabled: delegates to the lumped transport ----
 
 //@ func storageDissolvedDecay(inflowMass, storageInflow, storageOutflow, storageVolume, initialStoredMass, deltaT, doStorageDecay, annualReturnInterval, bankFullFlow, medianFloodResidenceTime, decayedMass, outflowMass) returns (rStored)
+//@   locals nDays, idx, i, upstreamFlowMass, storageVol, outflowRate, availLoadForOutflow, dailyDecayedConstituentLoad, totalConstsituentLoad, propLost, concentration, constituentRateInOutflow
 //@   kernel
 //@   states initialStoredMass
 //@   noalias
@@ -37,6 +39,7 @@ package storage
 // ---- C12: reservoir particulate trapping ----
 
 //@ func storageParticulateTrapping(inflowMass, storageInflow, storageOutflow, storageVolume, initialStoredMass, deltaT, reservoirCapacity, reservoirLength, subtractor, multiplier, lengthDischargeFactor, lengthDischargePower, trappedMass, outflowLoad) returns (rStored)
+//@   locals n, idx, i, incomingMass, inflowRate, damTrappingPC, sedimentationIndex, dailyTrappedConstituentLoad, storageOutflowRate, storageWorkingVolume, massOutRate, concentration
 //@   kernel
 //@   states initialStoredMass
 //@   noalias
@@ -57,6 +60,7 @@ package storage
 // (rain/evaporation accumulators in m^3), volume >= 0 and 0 <= timeRemaining <= deltaT.
 
 //@ func storageWaterBalance(rainfallTS, petTS, inflowTS, demandTS, targetMinimumVolume, targetMinimumCapacity, initialVolume, initialLevel, initialArea, deltaT, nLVA, levels, volumes, areas, minRelease, maxRelease, volumeTS, outflowTS, rainfallVolume, evaporationVolume) returns (volume, level, area)
+//@   locals idxCurve0, idxCurveN, volCurveMin, volCurveMax, maxSpill, cappedPiecewise, res, err, releaseRate, minRel, maxRel, releaseRatesCloseEnough, absError, relError, err, n, nSubtimeSteps, idx, i, timeRemaining, subtimestep, outflowVolume, targetMinCap, targetMaxVol, autoAdjustDemand, inflow, origDemand, demand, rainfallVolForTimestep, evaporationVolForTimestep, rainfallPerSecond, petPerSecond, netAtmosphericFluxDepthPerSecond, estOutflow, testVol, avgOutflow, avgArea, estOutflowAfter, overTopRatio, excessOutflow, excessOutflowVolume, outflowRate
 //@   canary [C13.canary-storage] implies(rainfallTS.len > 0, volumeTS.at(0) == initialVolume)
 //@   kernel
 //@   states initialVolume, initialLevel, initialArea
@@ -87,6 +91,7 @@ package storage
 // the release rule (closure releaseRate): the demand, limited to the band between
 // the minimum and maximum release curves at the given volume
 //@ func storageWaterBalance$2(demand, vol) returns (r)
+//@   locals minRel, maxRel
 //@   ensures [C13.release-rule] r == ite(demand < cappedPiecewise(vol, minRelease), cappedPiecewise(vol, minRelease), ite(demand > cappedPiecewise(vol, maxRelease), cappedPiecewise(vol, maxRelease), demand))
 //@   ensures [C13.release-between-curves] implies(cappedPiecewise(vol, minRelease) <= cappedPiecewise(vol, maxRelease), cappedPiecewise(vol, minRelease) <= r && r <= cappedPiecewise(vol, maxRelease))
 //@   ensures [C13.release-meets-demand] implies(cappedPiecewise(vol, minRelease) <= demand && demand <= cappedPiecewise(vol, maxRelease), r == demand)
